@@ -60,7 +60,8 @@ MUTANTS = [
     ("C07", "active-exit-inclusive", SHG, "if v.Activation <= epoch && epoch < v.Exit {",
      "if v.Activation <= epoch && epoch <= v.Exit {", None),
     ("C07", "proposer-byte-index", PR, "randomByte := h[j]", "randomByte := h[31-j]", None),
-    ("C07", "sync-hash-block", SY, "if i%32 == 0 {", "if i%16 == 0 {", None),
+    ("C07", "sync-byte-slip", SY, "randomByte := h[i%32]", "randomByte := h[(i+1)%32]", None),
+    ("C07", "sync-block-index", SY, "binary.LittleEndian.PutUint64(buf[32:32+8], uint64(i/32))", "binary.LittleEndian.PutUint64(buf[32:32+8], uint64(i/32)+1)", None),
     ("C07", "revert-epc-sync-unwrap", EC, "if wrapped, ok := state.(interface{ Unwrap() BeaconState }); ok {",
      "if wrapped, ok := state.(interface{ UnwrapX() BeaconState }); ok {", None),
     ("C07", "proposer-domain", PR, "GetSeed(spec, mixes, epoch, DOMAIN_BEACON_PROPOSER)",
@@ -103,7 +104,7 @@ def main():
         shutil.copytree(REPO, root, ignore=shutil.ignore_patterns(".git"))
         try:
             apply(root, rel, old, new, occ)
-            env = dict(os.environ, VERIF_REPO=root)
+            env = dict(os.environ, VERIF_REPO=root, VERIF_NO_EVIDENCE="1")
             t = time.time()
             p = subprocess.run([os.path.join(VERIF, "check"), pid, "--tier", tier], env=env, stdout=subprocess.PIPE,
                                stderr=subprocess.PIPE, text=True)
